@@ -294,6 +294,10 @@ def run(prog, rep, tier):
         merged.path = tuple(t_.path[:-1])
         merged.args = [("phi", t_.path[-1][0], t_.args[0], e_.args[0])]
         apps = [merged]
+    if not apps:
+        # the slices are not appended to per-fold lists inside the fold loop (stored into a row / a pre-sized table, collected by a comprehension): not read
+        rep.unk("FLOW.append", fwhere(f, inner["node"]), "the fold loop appends nothing: how the slices reach the folds is not read")
+        return
     if len(apps) != 1:
         rep.bad("FLOW.append", fwhere(f, inner["node"]), "each fold iteration must append exactly one slice (found %d appends)" % len(apps))
         return
